@@ -70,7 +70,7 @@ pub fn oracle(target: &str, d: &Decoded) -> Vec<(&'static str, &'static str, ser
 /// entry point of the fuzz targets: a failing oracle panics (libFuzzer turns it into a crash
 /// artifact; library panics abort on their own under libfuzzer-sys' hook)
 pub fn run(target: &str, data: &[u8]) {
-    crate::engine::set_counting(false);
+    crate::engine::set_fuzz_mode();
     let Some(d) = decode(data) else { return };
     for (id, _stream, _case, r) in oracle(target, &d) {
         if let Err(Failure { sig, detail }) = r {
